@@ -2,6 +2,7 @@ import Swat4.Lemmas.GS1
 import Swat4.Lemmas.GS1Choice
 import Swat4.Lemmas.GS1Collect
 import Swat4.Lemmas.GS1Parse
+import Swat4.Lemmas.GS1Expand
 import Swat4.Spec.GS1Spec
 /-!
 # C08 — Status responses decode faithfully in every dialect, split and order
@@ -294,6 +295,19 @@ theorem parse_concat (chunks : List (List Bytes)) (h : ∀ ch ∈ chunks, ∀ g 
   intro g hg
   obtain ⟨ch, hch, hg⟩ := List.mem_flatten.mp hg
   exact h ch hch g hg
+
+/-! ## expansion of the reassembled payload -/
+
+theorem framingFields_ok (d : Dialect) : ∀ kv ∈ framingFields d, usc ∉ kv.1 ∧ bsl ∉ kv.1 ∧ bsl ∉ kv.2 := by
+  cases d <;> decide
+
+/-- **C08 (expand ∘ encode).** The reassembled payload of a well-formed status — its rendered field
+sequence followed by the framing fields the dialect leaves in the payload — expands to exactly
+`toResponse`: the server fields (latin-1 → UTF-8, later duplicates win), the players grouped by
+index in ascending order with their keys, the objectives in order, and the dialect tag. -/
+theorem expand_concat (d : Dialect) (s : Status) (wf : WfStatus s) (hn : s.players.length ≤ 9223372036854775808) :
+    expandPayload (body (flat s ++ (framingFields d).flatMap fun kv => [kv.1, kv.2])) d.ver = .ok (toResponse d s) :=
+  expandPayload_flat s wf hn (framingFields d) (framingFields_ok d) d.ver
 
 end Swat4.C08
 
